@@ -25,6 +25,10 @@ ERRC = {"IndexError": 1, "ValueError": 2, "TypeError": 3}
 MODES = {"utf-8": 1, "euc-jp": 2, "iso8859-1": 3, "ascii": 3, "big5": 2, "gbk": 2, "euc-kr": 2}   # harness's own reading of set_encoding
 ALPHA = [ord("a"), ord(" "), ord("\n"), 0x4E16, 0x0301, 0x2500, 0x1F600, 0xE9]
 ENCS = ["utf-8", "euc-jp", "iso8859-1"]
+# code points that width libraries treat contextually inside grapheme sequences (the per-character width of the
+# property must not depend on the neighbours): emoji + ZWJ, VS16 / VS15 after a narrow or wide base, regional
+# indicators, skin-tone modifier, keycap
+GRAPHEME = [0x1F468, 0x200D, 0xFE0F, 0x2764, 0x1F1E6, 0x1F1FA, 0x1F3FB, 0xFE0E, 0x20E3, ord("1")]
 NONE = -1
 
 
@@ -190,7 +194,8 @@ class C11(core.Check):
     level_text = ""      # filled below
     level_note = ""
     rule = ("text cases = (string over an 8-class alphabet: ASCII letter, space, newline, wide CJK, combining, DEC line-drawing, "
-            "4-byte emoji, Latin-1 letter) as a str and as bytes under utf-8 / euc-jp / iso8859-1, each with the full query table "
+            "4-byte emoji, Latin-1 letter) as a str and as bytes under utf-8 / euc-jp / iso8859-1, plus strings over a grapheme-sequence "
+            "alphabet (emoji, ZWJ, VS16/VS15, regional indicators, skin-tone modifier, keycap) as str and utf-8, each with the full query table "
             "(all boundary offset ranges x columns 0..9 for calc_width/calc_text_pos/move_next/move_prev/is_wide_char/"
             "calc_trim_text, plus mid-character byte offsets and out-of-domain arguments for the correspondence); exhaustive up "
             "to length 3 (quick) / 4 (thorough) plus random longer strings and random raw byte strings; every code point's "
@@ -716,7 +721,7 @@ class C11(core.Check):
             yield {"k": "widths", "lo": mid, "hi": case["hi"]}
 
     # ------------------------------------------------------------------ generators
-    POOL = ALPHA + [ord("z"), 0x3000, 0xFF21, 0x200B, 0x0300, 0x20DD, 0xAC00, 0x1F1E6, 0x7F, 0x09, 0xA9, 0x3042, 0x30A2,
+    POOL = ALPHA + GRAPHEME + [ord("z"), 0x3000, 0xFF21, 0x200B, 0x0300, 0x20DD, 0xAC00, 0x1F1E6, 0x7F, 0x09, 0xA9, 0x3042, 0x30A2,
                     0xFF71, 0x2502, 0x00B0, 0x00B1, 0x00A3, 0x00B7, 0x03C0, 0x2264, 0x25AE, 0x10000, 0x10FFFF, 0xFFFD, 0x0E01,
                     0x0E31, 0x05D0, 0x0627, 0x1100, 0x115F, 0x2028, 0xAD, 0x80, 0x7FF, 0x800, 0xFFFF]
 
@@ -820,6 +825,14 @@ class C11(core.Check):
         for n in range(0, nmax + 1):
             for tup in itertools.product(ALPHA, repeat=n):
                 yield from self.text_cases(tup)
+        # grapheme sequences (ZWJ, variation selectors, regional-indicator pairs, modifiers, keycap): as a str and
+        # as utf-8 bytes, every string up to length 3 (quick: all pairs + every triple around a joiner/selector)
+        for n in range(1, 4):
+            for tup in itertools.product(GRAPHEME, repeat=n):
+                if quick and n == 3 and tup[1] not in (0x200D, 0xFE0F, 0x1F3FB, 0x1F1FA):
+                    continue
+                yield {"k": "text", "mode": "str", "s": list(tup), "cols": 7}
+                yield {"k": "text", "mode": "bytes", "enc": "utf-8", "s": list(tup), "cols": 7}
         # random longer strings (fewer columns of trimming to keep the tables small)
         for _ in range(60 if quick else 600):
             n = rng.choice([5, 6, 8, 12, 20] if quick else [5, 6, 8, 12, 20, 30])
